@@ -245,7 +245,7 @@ A = {
         "thorough": [0, 1, 2, -1, -2, 9007199254740993, -9223372036854775808, 2305843009213693951],
         "key": [0, 1, 2],
     },
-    "i4": {"quick": [0, 1, -2147483647, 2147483647], "thorough": [0, 1, -2147483647, 2147483647], "key": [0, 1, -2147483647]},
+    "i4": {"quick": [0, 1, -2147483648, 2147483647], "thorough": [0, 1, -2147483648, 2147483647, -1], "key": [0, 1, -2147483648]},
     "u1": {"quick": [0, 5, 200], "thorough": [0, 5, 200], "key": [0, 5, 200]},
     "b1": {"quick": [False, True], "thorough": [False, True], "key": [False, True]},
     "str": {
